@@ -1,6 +1,6 @@
 ---------------------------- MODULE Trace_KMClient ----------------------------
 (* Monitor for C19: one event per complete client run (two installations) against the real server. *)
-EXTENDS KMClient, Json
+EXTENDS Integers, Sequences, FiniteSets, TLC, Json
 TraceLog == ndJsonDeserialize("trace.ndjson")
 VARIABLES l, viol
 Failed(gs) == {g[1] : g \in {x \in gs : ~x[2]}}
@@ -12,14 +12,17 @@ Guards(e) ==
      <<"G_C19_PrivateFilesRestricted", \A i \in DOMAIN e.out.files :
             e.out.files[i].private => e.out.files[i].mode = (IF e.out.files[i].dir THEN 448 ELSE 384)>>,
      <<"G_C19_OneCertPerLabel", e.out.duplicateLabels = 0>>,
-     <<"G_C19_AgentGetsCerts", (e.case.agent /\ e.out.ok) => Len(e.out.agentLabels) >= 2>>,
+     \* an agent that takes certificates (possibly only without a lifetime) ends up holding them
+     <<"G_C19_AgentGetsCerts", (e.case.agent /\ e.case.agentmode \in {"ok", "nolifetime"} /\ e.out.ok) => e.out.ownLabels >= 2>>,
+     \* an agent that takes nothing: the keys go to files (which the restricted-mode guard then judges)
+     <<"G_C19_FallbackToFiles", (e.out.ok /\ (~e.case.agent \/ e.case.agentmode = "refuse")) => e.out.privateFiles >= 2>>,
      \* replacing is by label: what another tool put into the agent stays
      <<"G_C19_OtherLabelsKept", e.out.otherToolKept>>}
-TInit == Init /\ l = 1 /\ viol = {}
+TInit == l = 1 /\ viol = {}
 TNext == /\ l <= Len(TraceLog)
          /\ LET e == TraceLog[l] bad == Failed(Guards(e)) IN
             viol' = (IF bad = {} THEN viol ELSE viol \cup {<<l, "ClientRun", bad>>})
-         /\ l' = l + 1 /\ UNCHANGED vars
-TSpec == TInit /\ [][TNext]_<<vars, l, viol>>
+         /\ l' = l + 1
+TSpec == TInit /\ [][TNext]_<<l, viol>>
 Report == (l = Len(TraceLog) + 1) => PrintT(<<"VIOL", ToJson([n |-> l - 1, viol |-> viol])>>)
 =============================================================================
